@@ -280,9 +280,11 @@ func kWriter(args []string) (string, string) {
 	}
 
 	type respRec struct {
-		w    *wrec
-		resp gowarc.WriteResponse
+		w     *wrec
+		resp  gowarc.WriteResponse
+		batch int // which Write call the record belonged to
 	}
+	nBatch := 0
 	var resps []string
 	var all []respRec
 	viol := ""
@@ -386,7 +388,7 @@ func kWriter(args []string) (string, string) {
 				setViol("writer-response-count", fmt.Sprintf("%d responses for a segmented record", len(rr)))
 				return "response-count", viol
 			}
-			all = append(all, respRec{wr, rr[0]})
+			all = append(all, respRec{wr, rr[0], 0})
 			if rr[0].Err != nil {
 				resps = append(resps, "err")
 				modelOps = append(modelOps, fmt.Sprintf("W:%d:%s:0:0:0", tok, declS))
@@ -425,13 +427,14 @@ func kWriter(args []string) (string, string) {
 			declared[i] = wr.rec.WarcHeader().Get("Content-Length")
 		}
 		rr := w.Write(recs...)
+		nBatch++
 		if len(rr) != len(batch) {
 			setViol("writer-response-count", fmt.Sprintf("%d responses for %d records", len(rr), len(batch)))
 			return "response-count", viol
 		}
 		for i, r := range rr {
 			wr := batch[i]
-			all = append(all, respRec{wr, r})
+			all = append(all, respRec{wr, r, nBatch})
 			d := "e"
 			if declared[i] != "" {
 				if _, err := strconv.ParseInt(declared[i], 10, 64); err != nil {
@@ -787,6 +790,36 @@ func kWriter(args []string) (string, string) {
 						}
 					}
 					nonInfo++
+				}
+			}
+		}
+		// C13: fit rule, the other direction. Inside ONE Write call nothing but the fit test opens a fresh file: when the
+		// next record of the call went to another file, the file it left plus the record's declared (ratio-scaled) length
+		// must have been over the limit
+		if max > 0 && cfg["conc"] != "t" {
+			for i := 0; i+1 < len(all); i++ {
+				a, b := all[i], all[i+1]
+				if a.batch == 0 || a.batch != b.batch || a.resp.Err != nil || b.resp.Err != nil || a.resp.FileName == b.resp.FileName {
+					continue
+				}
+				va := viewOf(fileIdx(a.resp.FileName))
+				if va == nil || len(va.members) == 0 {
+					continue
+				}
+				last := va.members[len(va.members)-1]
+				if last.off != a.resp.FileOffset {
+					continue // judged by writer-offset
+				}
+				cl, perr := strconv.ParseInt(b.w.rec.WarcHeader().Get("Content-Length"), 10, 64)
+				if perr != nil {
+					continue
+				}
+				sz := cl
+				if comp {
+					sz = int64(float64(cl) * (float64(rnum) / float64(rden)))
+				}
+				if end := last.off + last.length; end+sz <= max {
+					setViol("writer-early-rotation", fmt.Sprintf("tok=%d started a fresh file although file %d held %d bytes and its declared(scaled) length %d fits the limit %d", b.w.tok, va.idx, end, sz, max))
 				}
 			}
 		}
